@@ -87,6 +87,18 @@ USED_FIELDS = ["version", "off_data", "off_crypttext", "off_blockhashes", "off_s
                "crypttext_hash_tree", "block_hashes", "share_hashes", "ueb_len", "ueb_body"]
 
 
+
+def randomize_guess(rng, real=None, allow_lt=False):
+    """Vary the segment size a fresh download node guesses before it has the UEB (exact, larger, and - for the
+    C02 profile only - smaller than the real one; see immutable_driver.randomize_guess)."""
+    from allmydata.immutable.downloader.node import DownloadNode
+    if not real:
+        DownloadNode.default_max_segment_size = 128 * 1024
+        return
+    opts = [real, real, real * 3, 128 * 1024] + ([max(1, (real + 1) // 2), max(1, real // 4)] if allow_lt else [])
+    DownloadNode.default_max_segment_size = rng.choice(opts)
+
+
 def read_file(p):
     with open(p, "rb") as f:
         return f.read()
@@ -464,6 +476,7 @@ class Scenario:
     def start_read(self, spec):
         node = self.nodes.get(spec["node"])
         if node is None:
+            randomize_guess(self.rng, getattr(self, "segsize", None), allow_lt=(self.profile == "c02"))
             node = self.nodes[spec["node"]] = self.g.nodemaker.create_from_cap(self.up.cap)
         self.events.append({"ev": "Read", "r": spec["id"], "node": spec["node"], "off": spec["off"], "len": spec["len"]})
         cons = RecConsumer(self, spec["id"], spec["off"])
